@@ -26,6 +26,8 @@ _HERE = os.path.dirname(os.path.dirname(os.path.realpath(__file__))) + os.sep  #
 
 STAT_ERRNOS = ["ENOENT", "ENOTDIR", "EACCES", "EIO", "ENAMETOOLONG", "ELOOP"]
 OPEN_ERRNOS = STAT_ERRNOS + ["EISDIR", "EMFILE", "ENFILE", "EPERM"]
+# rarer errnos (network file systems, resource exhaustion): drawn in sampled plans only, not part of the sweep alphabet
+EXTRA_ERRNOS = ["ESTALE", "ETIMEDOUT", "EAGAIN", "ENOMEM", "EOVERFLOW", "EBUSY", "ENXIO"]
 READ_KINDS = ["read_eio", "torn", "flip"]
 
 _real_open = builtins.open
@@ -79,7 +81,8 @@ class FaultyRaw(io.RawIOBase):
 
 
 class FsSeam:
-    def __init__(self, root: str, faults: list[dict] | None = None, log=None, clock=None, observe_only=False):
+    def __init__(self, root: str, faults: list[dict] | None = None, log=None, clock=None, observe_only=False,
+                 interrupt_at: int | None = None):
         self.root = os.path.realpath(root)
         self.root_alt = root
         # a fault names its call by (issuing site, operation, project-relative path, n-th such call): robust
@@ -89,6 +92,10 @@ class FsSeam:
         self.log = log
         self.clock = clock
         self.observe_only = observe_only
+        # "crash at an arbitrary point": the n-th faultable call raises KeyboardInterrupt (a BaseException, so no
+        # ``except Exception`` recovery runs - only ``finally`` clean-ups do)
+        self.interrupt_at = interrupt_at
+        self.interrupted = False
         self.n_faultable = 0
         self.trace: list[dict] = []  # faultable calls, in order
         self.delivered: list[dict] = []
@@ -138,6 +145,9 @@ class FsSeam:
         self.n_faultable += 1
         if self.clock is not None:
             self.clock.advance_us(53)
+        if self.interrupt_at is not None and idx == self.interrupt_at:
+            self.interrupted = True
+            raise KeyboardInterrupt("simulated interrupt at an I/O call")
         key = (site, op, rel)
         nth = self._occ.get(key, 0)
         self._occ[key] = nth + 1
@@ -178,7 +188,7 @@ class FsSeam:
             self._note(rec, "ok")
             return fh
         kind = fault["kind"]
-        if kind in OPEN_ERRNOS:
+        if kind in OPEN_ERRNOS or kind in EXTRA_ERRNOS:
             self._note(rec, "inject:" + kind)
             self._deliver(rec, fault, "raise-at-open")
             raise _oserror(kind, os.fspath(file))
@@ -235,7 +245,7 @@ class FsSeam:
             self.upstream_calls += 1
             return real(path, *args, **kwargs)
         idx, fault, rec = self._decide(op, rel, site)
-        if fault is None or fault["kind"] not in STAT_ERRNOS:
+        if fault is None or fault["kind"] not in STAT_ERRNOS + EXTRA_ERRNOS:
             try:
                 st = real(path, *args, **kwargs)
             except BaseException as e:  # noqa: BLE001
